@@ -152,6 +152,16 @@ def _install_recorders():
         return res
 
     OmegaRecord.remove = oremove
+    real_oupdate = OmegaRecord.update
+
+    def oupdate(self, parameters):
+        ps = [(float(p.init), bool(p.fix)) for p in parameters]
+        res = real_oupdate(self, parameters)
+        if _LOG is not None:
+            _LOG.append(("oupdate", self, ps, res))
+        return res
+
+    OmegaRecord.update = oupdate
 
 
 def count_thetas(texts):
@@ -390,6 +400,37 @@ def apply_edit(m, ed, tags):
     raise RuntimeError(f"unknown edit {ed}")
 
 
+def _replay_block_update(rec, args, res, drv, k, tags):
+    """K: OmegaRecord.update of a BLOCK(n) record (non-CHOLESKY, non-SAME) vs the Lean scale conversion fromCovE"""
+    from fractions import Fraction
+    from harness.corr import c04
+    if drv is None or not rec.root.find("block") or rec.root.find("same"):
+        return
+    try:
+        fix, sd, corr, chol = rec._block_flags()
+    except ModelSyntaxError:
+        return
+    if chol:
+        tags.append("k:api-omega-block-cholesky-skipped")
+        return
+    size = int(str(rec.root.subtree("block").subtree("size")))
+    cov = [v for v, _ in args]
+    if len(cov) != size * (size + 1) // 2:
+        return
+    m = drv.ask(["fromcov", sd, corr, size, [[Fraction(v).numerator, Fraction(v).denominator] for v in cov]])
+    raw = []
+    for node in res.root.subtrees("omega"):
+        n = int(str(node.subtree("n").leaf("INT"))) if node.find("n") else 1
+        raw += [float(str(node.subtree("init")))] * n
+    if m[0] != "ok":
+        tags.append("k:api-omega-block-irrational")
+        return
+    mv = [int(a) / int(b) for a, b in m[1]]
+    tags.append("k:api-omega-block-update")
+    if [c04.sig(v) for v in mv] != [c04.sig(v) for v in raw]:
+        k.append(f"update_random_variable_records -> OmegaRecord.update({str(rec.root)!r}, {cov}): model {mv} code {raw}")
+
+
 def theta_item_table(code):
     """[(facts, n)] for every theta item of every $THETA record of a control stream, in order"""
     from harness.corr import c04
@@ -453,7 +494,21 @@ def run_api_case(case, drv):
     # ---- K: replay every recorded ThetaRecord.update/remove call on the Lean model; record-level monitors on it
     call_classes = []
     for kind, rec, args, res in log:
-        w = U.rec_wire(rec.root) if kind != "oremove" else None
+        w = U.rec_wire(rec.root) if kind in ("update", "remove") else None
+        if kind == "oupdate":
+            if rec.root.find("block") or rec.root.find("bare_block"):
+                _replay_block_update(rec, args, res, drv, k, tags)
+            else:
+                if drv is not None:
+                    c04.k_diag_update(rec, args, res, drv, k, "update_random_variable_records -> ")
+                    tags.append("k:api-omega-diag-update")
+                pos = 0
+                for nd in c04.diag_items(rec):
+                    n = int(str(nd.subtree("n").leaf("INT"))) if nd.find("n") else 1
+                    if n > 1 and any(a != args[pos] for a in args[pos:pos + n]):
+                        call_classes.append({"cls": "omega-diag-repeat-split", "what": f"OmegaRecord.update splits {str(nd)!r}"})
+                    pos += n
+            continue
         if kind == "update":
             if drv is not None:
                 mres = drv.ask(["update", w, [U.param_wire(*t) for t in args]])
@@ -480,6 +535,11 @@ def run_api_case(case, drv):
         elif kind == "oremove":
             if rec.root.find("block") or rec.root.find("bare_block") or not args:
                 continue
+            if drv is not None:
+                mres = drv.ask(["dremove", U.drec_wire(rec.root), [i for i, _ in args]])
+                if mres != U.norm(U.drec_wire(res.root)):
+                    k.append(f"update_random_variable_records -> OmegaRecord.remove({str(rec.root)!r}, {args}): model {str(mres)[:400]} code {str(res.root)!r}")
+                tags.append("k:api-omega-diag-remove")
             nitems = len(list(rec.root.subtrees("diag_item")))
             removed = {i for i, _ in args}
             kept = set(range(nitems)) - removed
@@ -595,8 +655,10 @@ def classify_api(ctx, s1, s2, what, ed):
             return "omega-join-inside-diag-record"
         if "omega-diag-remove-last-item" in names and what.startswith("unreadable"):
             return "omega-diag-remove-last-item"
-        if ctx.get("diag_xn_named") and "init" in ops + ([ed[0]] if ed else []) and what in ("etas", "epsilons", "omegas"):
-            return "omega-diag-repeat-split-comment"
+        if "omega-diag-repeat-split" in names and what in ("etas", "epsilons", "omegas"):
+            if ctx.get("diag_xn_named") and what != "omegas":
+                return "omega-diag-repeat-split-comment"
+            return "omega-diag-repeat-split-fix"
     if what == "thetas":
         same_values = s1 is not None and s2 is not None and [t[1:] for t in s1["thetas"]] == [t[1:] for t in s2["thetas"]]
         if same_values and any(f["inner_comment"] for f in ctx["items0"]):
